@@ -12,7 +12,9 @@ from . import bagrec, driver, refsem, rel, suite_bag, suite_ctx
 from .pipeline import Builder
 from .gen_pipe import gen_stack
 from .sym import SymWorld
-from .codec import exc_name
+from .codec import exc_name, canon, val_to_json
+from .extract import Extractor, Unsupported
+from .pipeline import observe
 
 
 def drive(kind, seed):
@@ -102,4 +104,102 @@ def run_shard(args):
         if d is not None:
             slim = {k: v for k, v in r.items() if k != 'real'}
             bad.append({'diff': d, 'record': slim, 'real': r['real'] if 'err' in r['real'] else None})
+    return stats, bad
+
+
+# ---------------------------------------------------------------- end to end through the model's own compiler
+
+def real_bag_json(bag, ex):
+    """the real container with the real edge kinds (functions by their symbolic names), for `Bag.compileGraph` and the VM"""
+    ids = {}
+
+    def nid(n):
+        if id(n) not in ids:
+            ids[id(n)] = len(ids)
+        return [ids[id(n)], n.name]
+    rec = bagrec.Recorder()
+    d = {'inputs': [nid(n) for n in bag.inputs], 'outputs': [nid(n) for n in bag.outputs],
+         'edges': [{'e': ex.edge(e.edge), 'ins': [nid(i) for i in e.inputs], 'out': nid(e.output)} for e in bag.edges],
+         'virt': rec.nameset(bag.virtual), 'persistent': sorted(bag.persistent), 'optional': [nid(n) for n in bag.optional],
+         'ctx': {'k': 'no'}}
+    d['next'] = len(ids)
+    return d
+
+
+def e2e_case(seed):
+    """a layer stack built by the real code; its final container is handed to the model, which validates it, resolves the
+    field, builds the graph (`Bag.compileGraph`) and runs the VM model on it; values, signatures and error classes are
+    compared with what the real compiled function returns on the same symbolic inputs"""
+    rng = random.Random(seed)
+    st = gen_stack(rng, max_layers=6) if seed % 2 else gen_stack(rng, max_layers=6, p_avail=0.6, p_opt=0.55)
+    b, layer, err = suite_bag.build(suite_bag.nest(random.Random(seed + 1), st) or st)
+    if layer is None:
+        return None
+    names = suite_bag.NAMES
+    obs = observe(b, layer, names)
+    ex = Extractor(b.world)
+    try:
+        bag = real_bag_json(layer._container, ex)
+    except Unsupported:
+        return None
+    steps = []
+    for n in names:
+        f = obs['fields'][n]
+        env = {p: '$' + p for p in f.get('sig', [])} if not f.get('identity') else {}
+        steps.append({'t': 'call', 'bag': bag, 'name': n, 'env': env, 'stores': [size for _, size in ex.stores],
+                      'impure': sorted(b.world.impure), 'const_fns': [[k, val_to_json(v, b.world)] for k, v in b.world.consts.items()]})
+    return {'stack': st, 'obs': obs, 'steps': steps, 'names': names, 'world': b.world}
+
+
+def e2e_compare(case, outs):
+    obs, bad, n_ok, inst = case['obs'], [], 0, 0
+    for name, a in zip(case['names'], outs):
+        if 'dir_err' in obs:
+            if a.get('err') != obs['dir_err']:
+                bad.append({'field': name, 'real': obs['dir_err'], 'model': a})
+            continue
+        f = obs['fields'][name]
+        if 'err' in f:
+            if a.get('err') != f['err']:
+                bad.append({'field': name, 'real': f['err'], 'model': a})
+            continue
+        if f.get('identity'):
+            if not a.get('identity') and not (a.get('sig') == [name]):
+                bad.append({'field': name, 'real': 'identity', 'model': a})
+            continue
+        if 'r' not in a:
+            bad.append({'field': name, 'real': f.get('sig'), 'model': a})
+            continue
+        if a.get('sig') != f['sig']:
+            bad.append({'field': name, 'what': 'signature', 'real': f['sig'], 'model': a.get('sig')})
+            continue
+        if 'value' in f:
+            if 'ok' not in a['r'] or canon(a['r']['ok']) != canon(f['value']):
+                bad.append({'field': name, 'what': 'value', 'real': f['value'], 'model': a['r']})
+                continue
+            n_ok += 1
+        elif a['r'].get('err') != f.get('value_err'):
+            bad.append({'field': name, 'what': 'exception', 'real': f.get('value_err'), 'model': a['r']})
+            continue
+        if a.get('graph_ok') and a.get('call_ok'):
+            inst += 1
+    return bad, n_ok, inst
+
+
+def run_e2e_shard(args):
+    seed, n = args
+    cases = [c for c in (e2e_case(seed * 5231 + i) for i in range(n)) if c is not None]
+    stats = {'pipelines': len(cases), 'fields': 0, 'values_equal': 0, 'vm_theorem_instances': 0}
+    bad = []
+    for c in cases:
+        ans = driver.run_lines([{'op': 'bag', 'steps': c['steps']}])[0]
+        if 'error' in ans:
+            bad.append({'stack': c['stack'], 'diff': [{'driver': ans['error']}]})
+            continue
+        d, ok, inst = e2e_compare(c, ans['outs'])
+        stats['fields'] += len(c['names'])
+        stats['values_equal'] += ok
+        stats['vm_theorem_instances'] += inst
+        if d:
+            bad.append({'stack': c['stack'], 'diff': json.loads(json.dumps(d[:3], default=str))})
     return stats, bad
